@@ -235,7 +235,7 @@ def eval_cases(tag, imports, check_expr, case_type, cases, shards=None, timeout=
         g = groups[k]
         path = os.path.join(d, "shard%d.v" % k)
         with open(path, "w") as f:
-            f.write("From Aquatic Require Import %s.\nImport ListNotations.\nSet Printing Width 200.\n" % " ".join(imports))
+            f.write("From Coq Require Import String.\nFrom Aquatic Require Import %s.\nImport ListNotations.\nOpen Scope string_scope.\nSet Printing Width 200.\n" % " ".join(imports))
             f.write("Definition cases : list (%s) := [\n" % case_type)
             f.write(";\n".join(t for _, _, t in g))
             f.write("\n].\nEval vm_compute in (map (fun c => %s c) cases).\n" % check_expr)
